@@ -3,13 +3,13 @@
 set -e
 ID=$1; idl=$(echo $ID | tr A-Z a-z); SRC=/work/$ID/verif; DST=/verif
 cd $SRC
-files=$( (find lean/XalanModel -name '*.lean' -not -path '*/Generated/*'; ls lean/Driver/*.lean; ls translate/${idl}_* harness/${idl}_* checks/${idl}.py gen/${idl}_* design/$ID.md proposed/$ID-* 2>/dev/null; find gen/corpus/$idl -type f 2>/dev/null) | sort -u)
+files=$( (find lean/XalanModel -name '*.lean' -not -path '*/Generated/*'; ls lean/Driver/*.lean; ls checks/${idl}_*.py translate/${idl}_* translate/_${idl}_* harness/${idl}_* checks/${idl}.py gen/${idl}_* design/$ID.md proposed/$ID-* 2>/dev/null; find gen/corpus/$idl -type f 2>/dev/null) | sort -u)
 for f in $files; do
   if [ -e "$DST/$f" ]; then
     if ! cmp -s "$f" "$DST/$f"; then
       case "$f" in
         lean/Driver/Util.lean) echo "SKIP(shared, differs) $f";;
-        lean/Driver/$ID.lean|checks/$idl.py|lean/XalanModel/Props/$ID.lean|harness/${idl}_*|translate/${idl}_*|gen/${idl}_*|design/$ID.md|proposed/$ID-*|lean/XalanModel/$ID/*) mkdir -p $(dirname $DST/$f); cp "$f" "$DST/$f"; echo "UPDATE $f";;
+        lean/Driver/$ID.lean|lean/Driver/${ID}_*.lean|checks/$idl.py|checks/${idl}_*.py|lean/XalanModel/Props/$ID.lean|harness/${idl}_*|translate/${idl}_*|gen/${idl}_*|design/$ID.md|proposed/$ID-*|lean/XalanModel/$ID/*) mkdir -p $(dirname $DST/$f); cp "$f" "$DST/$f"; echo "UPDATE $f";;
         *) if [ "$ID" = "C20" ] && [[ "$f" == lean/XalanModel/Containers/* ]]; then cp "$f" "$DST/$f"; echo "UPDATE $f"; else echo "CONFLICT $f (exists in /verif and differs)"; fi;;
       esac
     fi
